@@ -37,7 +37,10 @@ CHECKS = {
  "C06": dict(
    text="TLC checks Script.tla exhaustively: every secured role (PLAIN/ENC x listener/connector x ALLOW_ZMTP2) against the attacker "
         "grammar to depth 6/7 (NoBypass, PlainClientPath, NoDataBeforeHc, NoV2WhenRefused); simulated attacker behaviours are "
-        "concretised to bytes and fed to the real engine (CURVE and Noise_XX), plus byte-level mutations; no HandshakeComplete / "
+        "concretised to bytes and fed to the real engine (CURVE and Noise_XX), plus byte-level mutations; the role-confusion family "
+        "(well-formed greeting naming the configured mechanism with either as-server bit, then every 3-frame sequence of HELLO / WELCOME / "
+        "INITIATE without a secret, READY, data; written blindly, read token by token or at once) is exported exhaustively (9 354 behaviours) "
+        "and replayed as well; no HandshakeComplete / "
         "DeliverMessage may appear for a peer that proved nothing.",
    note="The attacker cannot produce secret-dependent rounds; crypto primitives trusted; depth-bounded grammar. Trusted: harness "
         "token->bytes table (script.rs).",
@@ -102,7 +105,9 @@ CHECKS = {
         "compared for every message after every call (two byte mappings incl. 0x00/0xFF); a two-thread probe checks that "
         "unsubscribing an unknown topic is never observable. Real PUB/SUB sockets run subscribe/unsubscribe phases with "
         "multipart messages (tcp/ipc/inproc/io_uring) - delivered set vs Matches - and a stalled-subscriber scenario; "
-        "histories are validated by TLC against Delivery.tla in fan-out mode.",
+        "histories are validated by TLC against Delivery.tla in fan-out mode. Beyond the property: SubSync.tla (the SUBSCRIBE / CANCEL "
+        "messages a SUB sends to each publisher, the synchronisation of a connection that comes up or comes back) is checked by TLC and its "
+        "behaviours are replayed on a real SUB socket whose publishers are raw ZMTP peers, both backends (a disagreement is a NOTE).",
    note="Socket-level filtering is checked 60 ms after the subscription calls returned; the race probe is statistical. "
         "Known finding C12-b (PUB blocks on a stalled subscriber).",
    technique="TLA+ spec (PubSub.tla, Delivery.tla) + TLC exhaustive history export replayed on the real trie; TLC trace validation of socket histories",
@@ -139,7 +144,7 @@ CHECKS = {
         "histories of 6 operations are replayed on the real RouterMap with both maps compared after every operation and the "
         "invariants evaluated on the real maps; delimiter helpers are checked for every payload shape. Real ROUTER sockets with "
         "DEALER/REQ peers (distinct, absent, 255-byte identities; payloads with empty frames in every position; mandatory on/off; "
-        "reconnect with the same identity; tcp/ipc/inproc/io_uring): identity frame == sender's ROUTING_ID, echoes and addressed "
+        "reconnect with the same identity; a ROUTER read by polling with RCVTIMEO 0 while 32 identified peers connect and send at once; tcp/ipc/inproc/io_uring): identity frame == sender's ROUTING_ID, echoes and addressed "
         "messages reach only the addressed peer unchanged (replies of every shape: empty first, middle, only frame; AUTO_DELIMITER 0 and 1), unroutable -> "
         "HostUnreachable / silent drop.",
    note="Socket-level order of connect / first message / identity announcement is whatever the runtime produces (observed, not "
@@ -165,7 +170,8 @@ CHECKS = {
         "session's write queue, whose pending-message count is what is compared with SNDHWM): every history of <= 5 / 6 push / priority / "
         "advance operations with writes ending anywhere is replayed on the real EgressBuffer, count and head chunk compared after every step. "
         "Real sockets with a reader that stalls and later starts (PUSH/PULL, DEALER/ROUTER, PUB/SUB; tcp/ipc/inproc; HWM 1..256; the "
-        "sender connecting or binding; RCVTIMEO different from SNDTIMEO): "
+        "sender connecting or binding; RCVTIMEO different from SNDTIMEO; timed recv() on ROUTER / PULL / DEALER / SUB while 30 peers connect and leave at "
+        "intervals shorter than the time-out): "
         "every send()/recv() is recorded with its timeout option, result and duration and validated by TLC against the timeout "
         "clauses (Trace_Timeo); messages accepted while the reader stalls are counted against 2*SNDHWM + 2*RCVHWM + 16 + kernel "
         "allowance; the histories with refusals are validated against Delivery.tla.",
@@ -246,7 +252,7 @@ CHECKS = {
         "call of a stream of send / send_multipart / recv / recv_multipart calls is dropped after its k-th Pending poll (k = 1..3, counted by "
         "the harness), under back-pressure, with several senders feeding one receiver, with SNDTIMEO / RCVTIMEO cancelling internally, for "
         "PUSH/PULL, DEALER/ROUTER, ROUTER/DEALER, PUB/SUB, REQ/REP (no peer, full pipe, waiting for the reply) over tcp / ipc / inproc; "
-        "afterwards normal calls continue on the same "
+        "messages sent frame by frame with the call carrying the last frame dropped; afterwards normal calls continue on the same "
         "sockets. The history is validated by TLC against Delivery.tla (nothing twice, nothing partial, nothing accepted lost, order per "
         "connection; a cancelled send delivered once whole or not at all) and the call sequences against Trace_Cancel.tla (never a state in "
         "which every next call is rejected). The cancellation of a blocked send() inside ReadyPipeQueue is explored under the controlled "
